@@ -180,7 +180,10 @@ theorem C18_mpd_svd_closed (n : Nat) (φ : Nat → Cx ℝ) (v01 v11 μ : ℝ)
     `c ≠ 0` and every shape whose two singular values are not exactly equal.  The proviso is
     forced: at a tie the Gram matrix is `a·1`, the closed form (like LAPACK) picks a fixed
     direction for `φ` and for `c·φ`, and MPD of an isotropic shape depends on the direction
-    (e.g. `(1, e^{iπ/3}, e^{2iπ/3})`: `2π/9` along `0`, `5π/18` along `π/6`). -/
+    (e.g. `(1, e^{iπ/3}, e^{2iπ/3})`: `2π/9` along `0`, `5π/18` along `π/6`).  The real
+    function at the excluded point: `φ = (−2−2i, −2+i, −1+2i)` (Gram matrix `9·1`) gives
+    `gen.MPD(φ) = 0.7854`, `gen.MPD((1+2i)·φ) = 0.6810` — the property's clause "MPD unchanged
+    by a complex factor" is false at exact ties, for the definition, not for this code only. -/
 theorem C18_mpdClosed_scale (n : Nat) (c : Cx ℝ) (hc : CNonZero c) (φ : Nat → Cx ℝ)
     (htie : (gram2 n φ).disc ≠ 0) : mpdClosed n (cscale c φ) = mpdClosed n φ := by
   have hs := normSq_pos_of_ne hc
